@@ -38,10 +38,17 @@ structure Cfg where
   deleteIfExists : Bool
   policy : Policy
   precondPass : Bool
+  /-- `create.overlay` is written in the spec (must not influence whether create is enabled) -/
+  createOverlay : Bool
+  /-- `apiConfig.plural` is given; otherwise the first reconcile of the kind in a process has to
+      discover it (`get_plural_kind` → `api.lookup_kind`), which is an API call too -/
+  pluralGiven : Bool
   deriving Repr, BEq, DecidableEq
 
+/-- `absentConflict`: absent when loaded, but a competitor creates the object before our POST
+    arrives, so the server answers 409 -/
 inductive Situation where
-  | absent | presentMatching | presentDrifted | presentNoOwnerRef
+  | absent | presentMatching | presentDrifted | presentNoOwnerRef | absentConflict
   deriving Repr, BEq, DecidableEq
 
 /-- what reaches the API: nothing at all; reads only (the load); or the load plus one mutation -/
@@ -59,8 +66,10 @@ inductive DelaySrc where
   | load | create | update
   deriving Repr, BEq, DecidableEq
 
+/-- absent as far as the load can tell -/
 def Situation.isAbsent : Situation → Bool
   | .absent => true
+  | .absentConflict => true
   | _ => false
 def Situation.isDrifted : Situation → Bool
   | .presentDrifted => true
@@ -76,9 +85,7 @@ def Cfg.shouldOwn (c : Cfg) : Bool := c.owned && c.namespaced
 protected def decide (c : Cfg) (s : Situation) : Action × OutcomeClass :=
   if !c.precondPass then (.noApiAtAll, .precond)            -- lines 55-60
   else if c.deleteIfExists then                             -- 228-242
-    match s with
-    | .absent => (.none, .ok)
-    | _ => (.delete, .retry)
+    if s.isAbsent then (.none, .ok) else (.delete, .retry)
   else if s.isAbsent && (c.readonly || !c.createEnabled) then (.none, .retry)   -- 244-253
   else if !s.isAbsent && c.readonly then (.none, .ok)       -- 255-256
   else if s.isAbsent then (.create, .retry)                 -- 298-313
@@ -90,6 +97,10 @@ protected def decide (c : Cfg) (s : Situation) : Action × OutcomeClass :=
       | .never => (.none, .ok)
       | .recreate => (.delete, .retry)
       | .patch => (.patch, .retry)
+
+/-- does the run make a kind-to-plural discovery call (cold cache)?  The lookup sits in
+    `reconcile_krm_resource`, behind the precondition gate, in front of the load. -/
+def discovers (c : Cfg) : Bool := c.precondPass && !c.pluralGiven
 
 /-- the delay of the Retry the cell reports (`none`: no Retry of koreo's own) -/
 def delaySrc (c : Cfg) (s : Situation) : Option DelaySrc :=
@@ -112,6 +123,8 @@ structure FlagSpec where
   update : Option Policy := none
   createDelay : Option Int := none
   updateDelay : Option Int := none
+  createOverlay : Bool := false
+  pluralGiven : Bool := true
 
 def namespacedDefault : Bool := true
 def ownedDefault : Bool := true
@@ -129,7 +142,8 @@ def FlagSpec.cfg (f : FlagSpec) (precondPass : Bool) : Cfg :=
     namespaced := f.namespaced.getD namespacedDefault,
     createEnabled := f.createEnabled.getD createEnabledDefault,
     deleteIfExists := f.deleteIfExists.getD deleteIfExistsDefault,
-    policy := f.update.getD policyDefault, precondPass := precondPass }
+    policy := f.update.getD policyDefault, precondPass := precondPass,
+    createOverlay := f.createOverlay, pluralGiven := f.pluralGiven }
 
 def FlagSpec.delay (f : FlagSpec) : DelaySrc → Int
   | .load => loadRetryDelay
@@ -214,6 +228,16 @@ end
 /-- an inline overlay / an overlayRef ValueFunction's `return` / create.overlay as a step -/
 def Ov.step (o : Ov) : Step := fun r => some (o.apply r)
 
+/-- `spec.apiConfig` as far as the class is concerned, and the class `_prepare_api_config` builds
+    from it (a function of this spec alone: no memo across functions) -/
+structure ApiConfigSpec where
+  apiVersion : String
+  kind : String
+  plural : String
+  namespaced : Bool
+
+def ApiConfigSpec.cls (a : ApiConfigSpec) : ApiClass := ⟨a.apiVersion, a.kind, a.plural, a.namespaced⟩
+
 /-- a prepared ResourceFunction, as far as `reconcile_krm_resource` looks at it -/
 structure Rf where
   api : ApiClass
@@ -293,7 +317,8 @@ def reconcile (enc : JVal → String) (defNs : String) (cmp : JVal → JVal → 
 
 /-- the table's view of a prepared function -/
 def Rf.cfg (rf : Rf) (precondPass : Bool) : Cfg :=
-  ⟨rf.readonly, rf.owned, rf.api.namespaced, rf.createEnabled, rf.deleteIfExists, rf.policy, precondPass⟩
+  ⟨rf.readonly, rf.owned, rf.api.namespaced, rf.createEnabled, rf.deleteIfExists, rf.policy, precondPass,
+   rf.createOv.isSome, true⟩
 
 /-- the table's view of the cluster -/
 def situationOf (cmp : JVal → JVal → Bool) (expected : JVal) (ownerRef : JVal) (live : Option JVal) : Situation :=
